@@ -6,6 +6,7 @@ import (
 	"math/rand"
 	"os"
 	"runtime"
+	"strconv"
 	"strings"
 	"sync"
 	"time"
@@ -195,6 +196,30 @@ func c14(r *rand.Rand, tier string, classFile string, tr *trace.Buf) {
 		}
 		e.close()
 		tr.Emit(e)
+	}
+
+	// message lengths: the message is untrusted too. Lengths around every block boundary of the hash functions
+	// (SHA-256 64, SHAKE-128 168, SHAKE-256 136; the message hash prepends 128 bytes), around powers of two,
+	// seeded random ones, a few large ones; thorough: every length up to 1400
+	for hf := 0; hf < 3; hf++ {
+		sig := make([]byte, 2308)
+		r.Read(sig)
+		var pk [67]uint8
+		r.Read(pk[:])
+		pk[0] = uint8(hf)
+		for _, L := range sweepLengths(r, tier) {
+			msg := make([]byte, L)
+			r.Read(msg)
+			e := eEvent{Ev: "xverify", W: 16, SigLen: len(sig), B0: hf, B1s: []int{2, 3}, Content: "msglen-" + strconv.Itoa(L), Intact: true}
+			for _, b1 := range e.B1s {
+				pk[1] = uint8(b1)
+				s0, p0, m0 := dup(sig), pk, dup(msg)
+				e.Outs = append(e.Outs, guarded(func() { xmss.Verify(msg, sig, pk) }))
+				e.Intact = e.Intact && string(s0) == string(sig) && p0 == pk && string(m0) == string(msg)
+			}
+			e.close()
+			tr.Emit(e)
+		}
 	}
 
 	// ---- address functions over the complete descriptor space
@@ -508,6 +533,43 @@ func c14(r *rand.Rand, tier string, classFile string, tr *trace.Buf) {
 			tr.Emit(e)
 		}
 	}
+}
+
+// sweepLengths: message lengths around the block boundaries of the hash functions in use
+func sweepLengths(r *rand.Rand, tier string) []int {
+	seen := map[int]bool{}
+	var out []int
+	add := func(l int) {
+		if l >= 0 && !seen[l] {
+			seen[l] = true
+			out = append(out, l)
+		}
+	}
+	if tier == "thorough" {
+		for l := 0; l <= 1400; l++ {
+			add(l)
+		}
+	}
+	for _, blk := range []int{64, 136, 168} {
+		for k := 1; k*blk <= 1500; k++ {
+			for _, off := range []int{0, -9, -128, -128 - 9, -96, -32} { // padding and the prefixes the schemes prepend
+				for d := -2; d <= 2; d++ {
+					add(k*blk + off + d)
+				}
+			}
+		}
+	}
+	for p := 1; p <= 1<<16; p <<= 1 {
+		for d := -2; d <= 2; d++ {
+			add(p + d)
+		}
+	}
+	for i := 0; i < 60; i++ {
+		add(r.Intn(1500))
+	}
+	add(100000)
+	add(1 << 20)
+	return out
 }
 
 func ints(b []byte) []int {
